@@ -13,7 +13,11 @@ a value.
 
 from __future__ import annotations
 
+import copy
+import json
+
 from ..core import Ctx
+from .. import evallab as EL
 from .. import schedlab
 
 META = {
@@ -23,7 +27,8 @@ META = {
                   "repairs the failing task; recorded executions validated by TLC against the errors "
                   "clauses of the contract.",
     "level_note": "Errors handled by catch are outside this property (the statement conditions on 'no "
-                  "enclosing catch'); the program grammar has no catch.",
+                  "enclosing catch'); a second family puts the same failing call inside AND outside a catch "
+                  "beneath one job and lets the explicit semantics (Eval.tla) decide that the outside use raises.",
     "technique": "explicit TLA+ as-built scheduler model + TLC invariants; contract trace validation of "
                  "driven executions",
     "rule": "a case is (program, plan, complete schedule); distinct by program and choice sequence; "
@@ -51,7 +56,47 @@ def run(ctx: Ctx) -> None:
     nerr = sum(1 for t in r["traces"] if t["evs"] and t["evs"][-1].get("outcome") == "error")
     ctx.note("error_runs_observed", nerr)
     ctx.require(nerr >= 5, f"too few failing executions explored ({nerr}): the check would be vacuous")
+    unguarded_next_to_guarded(ctx)
+
+
+def unguarded_next_to_guarded(ctx: Ctx) -> None:
+    """A failing call used twice beneath one job, one use inside a catch and one outside: the use outside has no
+    enclosing catch, so run() must raise its error whatever absorbed the other use first (spec/eval/Eval.tla decides
+    the admissible outcomes; programs from evallab.shared_expr_program, failing variant)."""
+    cases = []
+    tries = 0
+    while len(cases) < ctx.pick(60, 600) and tries < 20000:
+        tries += 1
+        e = EL.shared_expr_program(ctx.rng)
+        if '"boom"' not in json.dumps(e) and '"kboom"' not in json.dumps(e):
+            continue
+        obs = EL.run_sim(EL.build(e), ctx.rng, p_finish=ctx.rng.choice([0.15, 0.5, 0.85]))
+        cases.append({"id": len(cases) + 1, "e": e, "ctx": EL.to_value({}), "run": EL.to_value({}), "obs": obs})
+    raising = [c for c in cases if c["obs"]["t"] == "raise"]
+    ctx.require(len(raising) >= 10, f"too few programs whose unguarded use must raise ({len(raising)})")
+    bad = copy.deepcopy(raising[0])
+    bad["id"] = len(cases) + 1
+    bad["obs"] = {"t": "list", "v": [{"t": "int", "v": -1}]}
+    verdicts = EL.judge(ctx, cases + [bad], "c12_shared")
+    ctx.negative_control(not verdicts[bad["id"]][0], "a returned value where the unguarded use must raise must be rejected")
+    for c in cases:
+        acc, n, exp = verdicts[c["id"]]
+        ctx.count_eval()
+        ctx.count_impl_trace()
+        ctx.distinct(["guarded+unguarded", c["e"]])
+        if not acc:
+            ctx.violation(f"a failing call used inside and outside a catch: run() gave {json.dumps(c['obs'])[:300]}; "
+                          f"the semantics admits {json.dumps(exp)[:300]} for {json.dumps(c['e'])[:300]}",
+                          {"kind": "eval", "e": c["e"], "obs": c["obs"]})
+    ctx.note("guarded_and_unguarded_uses_of_one_failing_call", {"programs": len(cases), "must_raise": len(raising)})
 
 
 def replay(ctx: Ctx, rec: dict) -> None:
+    r = rec["replay"]
+    if r.get("kind") == "eval":
+        obs = EL.run_sim(EL.build(r["e"]), ctx.rng)
+        v = EL.judge(ctx, [{"id": 1, "e": r["e"], "ctx": EL.to_value({}), "run": EL.to_value({}), "obs": obs}], "replay")
+        if not v[1][0]:
+            ctx.violation(f"replayed program gave {obs}; admits {v[1][2]}", r)
+        return
     schedlab.replay_record(ctx, rec, ON)
